@@ -47,6 +47,23 @@ def translate():
     need(_src(f.body[-1]) == "user_class._tx_instrumented = 1", "replacement does not end with _tx_instrumented = 1")
     inner = {n.name for n in f.body if isinstance(n, ast.FunctionDef)}
     need(inner == {"_" + a for a in rep}, "replacement functions %r do not match the names %r" % (sorted(inner), rep))
+    # the replacement functions themselves (transcribed as acting_set / acting_get / acting_del)
+    want_fns = {
+        "_getattribute": "def _getattribute(obj, name):\n    if name == '__dict__':\n        try:\n            return user_class._tx_obj_attrs[id(obj)]\n"
+                         "        except KeyError:\n            pass\n    else:\n        try:\n            return user_class._tx_obj_attrs[id(obj)][name]\n"
+                         "        except KeyError:\n            pass\n    real_getattribute = user_class._tx_real_getattribute\n"
+                         "    if real_getattribute is not None and id(obj) not in user_class._tx_obj_attrs:\n        return real_getattribute(obj, name)\n"
+                         "    return super(user_class, obj).__getattribute__(name)",
+        "_setattr": "def _setattr(obj, name, value):\n    try:\n        user_class._tx_obj_attrs[id(obj)][name] = value\n    except KeyError:\n"
+                    "        real_setattr = user_class._tx_real_setattr\n        if real_setattr is not None:\n            return real_setattr(obj, name, value)\n"
+                    "        return super(user_class, obj).__setattr__(name, value)",
+        "_delattr": "def _delattr(obj, name):\n    try:\n        user_class._tx_obj_attrs[id(obj)].pop(name)\n    except KeyError:\n"
+                    "        real_delattr = user_class._tx_real_delattr\n        if real_delattr is not None:\n            return real_delattr(obj, name)\n"
+                    "        return super(user_class, obj).__delattr__(name)",
+    }
+    for n in f.body:
+        if isinstance(n, ast.FunctionDef):
+            need(n.name in want_fns and _src(n) == want_fns[n.name], "replacement function %s changed" % n.name)
     # ---- replace, all classes of the metamodel
     f = find_func(tree, "_replace_user_attr_methods")
     want = ("for user_class in self.metamodel.user_classes.values():\n"
